@@ -1,4 +1,85 @@
-import LabreaModel.Eval
+/-
+  C09 — templates substitute options and parameters transitively and report their reads.
+-/
+import LabreaModel.MonadLemmas
+import LabreaModel.ResolveLemmas
 namespace Labrea
-theorem c09_placeholder : True := trivial
+
+/-- **template_subst.** A Template evaluates to `str(resolve(text, options overlaid by {":name:": value}))`:
+    parameters are evaluated under the same options first, in declaration order. -/
+theorem template_evaluate (run : Run) (n id : Nat) (t : String) (params : List (String × Expr)) (o : V)
+    (hp : ((findKeys t).filter isParamKey).all (fun k => params.any fun p => ":" ++ p.1 ++ ":" == k) = true) :
+    templateOp run n id t params .evaluate o =
+      (do
+        let ps ← mapM' (fun (p : String × Expr) => do
+          let v ← run .evaluate p.2 o
+          pure (":" ++ p.1 ++ ":", v)) params
+        let v ← resolveM n id (.str t) (mix o (.dict ps)) false
+        pure (.str (pyStr v))) := by
+  have : ((findKeys t).filter isParamKey).any (fun k => !(params.any fun p => ":" ++ p.1 ++ ":" == k)) = false := by
+    rw [List.any_eq_false]
+    intro k hk
+    have := List.all_eq_true.mp hp k hk
+    simp [this]
+  simp [templateOp, this]
+
+/-- the resolution of text under options depends on the options only through the keys in its read log
+    (transitively resolved references included): any dictionary that answers those lookups alike gives the
+    same text -/
+theorem resolve_depends_only_on_reads (o o' : V) (n : Nat) (x : V) (r : Except RErr V) (rd : List String)
+    (h : resolveR n x o = some (r, rd)) (ha : ∀ k ∈ rd, getDotted k o' = getDotted k o) :
+    resolveR n x o' = some (r, rd) :=
+  resolveR_congr o o' n x r rd h ha
+
+/-- a text without template keys resolves to itself with escaped braces left literal, and reads nothing -/
+theorem resolve_plain_text (n : Nat) (s : String) (o : V) (h : findKeys s = []) :
+    resolveR (n + 1) (.str s) o = some (.ok (.str (unescape s)), []) := by
+  simp [resolveR, h]
+
+/-- a whole-string reference `{K}` keeps the type of the value it refers to and resolves it transitively;
+    its read log starts with `K` -/
+theorem resolve_whole_reference (n : Nat) (k : String) (o v : V) (r : Except RErr V) (rd : List String)
+    (hf : findKeys ("{" ++ k ++ "}") = [k]) (hg : getDotted k o = .found v) (hr : resolveR n v o = some (r, rd)) :
+    resolveR (n + 1) (.str ("{" ++ k ++ "}")) o = some (r, k :: rd) := by
+  simp [resolveR, hf, hg, hr]
+
+/-- a reference to a missing key fails with that key -/
+theorem resolve_missing_key (n : Nat) (k : String) (o : V)
+    (hf : findKeys ("{" ++ k ++ "}") = [k]) (hg : getDotted k o = .keyErr) :
+    resolveR (n + 1) (.str ("{" ++ k ++ "}")) o = some (.error (.key k), [k]) := by
+  simp [resolveR, hf, hg]
+
+/-- `keys()` / `explain()` of a Template are the union of its parameters' keys and, for every plain `{KEY}`,
+    the keys of `Option(KEY)` — which follow the value stored under `KEY` transitively -/
+theorem template_keys_structure (run : Run) (n id : Nat) (t : String) (o : V) (op : Op) (h : op = .keys ∨ op = .explain)
+    (hp : (findKeys t).filter isParamKey = []) :
+    templateOp run n id t [] op o =
+      (do
+        let ks ← mapM' (fun (p : String × Nat) =>
+          handle (run op (.option (tid id (8 + p.2)) p.1 Option.none Option.none) o) fun err =>
+            match err with
+            | f :: _ => if err.isKeyNotFound then raise (keyNotFound id f.key :: err) else raise err
+            | [] => raise err)
+          ((findKeys t).filter fun k => !isParamKey k).zipIdx
+        pure (unionV (unionAll []) (unionAll ks))) := by
+  rcases h with h | h <;> subst h <;> simp [templateOp, hp, mapM'] <;> rfl
+
+/-- an Option whose value is templated at any nesting depth reports the keys of every templated string
+    inside it: `keys` of a present Option = its own key ∪ domain keys ∪ ⋃ Template(text).keys over
+    `_templated_strings(value)` -/
+theorem templatedStrings_nested :
+    templatedStrings (.dict [("a", .list [.str "{X}", .dict [("p", .str "{Y}/{Z}")]]), ("b", .int 1)]) = ["{X}", "{Y}/{Z}"] := by
+  decide +kernel
+
+/-! ### the scanner agrees with the regex on the documented shapes (kernel-evaluated) -/
+example : findKeys "a{A}b{S.X}c" = ["A", "S.X"] := by decide +kernel
+example : findKeys "\\{A\\} {:p:} {A}{A}" = [":p:", "A"] := by decide +kernel
+example : findKeys "{a{b}" = ["a{b"] := by decide +kernel
+example : unescape "\\{A\\}" = "{A}" := by decide +kernel
+example : isParamKey ":name_1:" = true ∧ isParamKey "a.b" = false ∧ isParamKey ":a.b:" = false := by decide +kernel
+
+/-- transitive resolution to depth 3 -/
+example : (resolveR 10 (.str "x{P}") (.dict [("P", .str "{Q}!"), ("Q", .str "{A}"), ("A", .int 7)])).map Prod.snd
+    = some ["P", "Q", "A"] := by decide +kernel
+
 end Labrea
